@@ -108,3 +108,46 @@ pub fn c15_sequence_from_new() {
     vcover!(model.is_some() && got.unwrap().depth == 0, "stored at depth 0");
     core::mem::forget(t);
 }
+
+// ------------------------------------------------------------------------------------------ C05 window lemma
+/// probe_transposition_table / determine_bound obey the alpha-beta contract for every window, score,
+/// entry and depth: an entry that is a TRUE statement about the node's value V (Exact: =V, Lower: <=V,
+/// Upper: >=V, searched at least as deep as now required) never yields an answer that contradicts V
+/// inside the window; a shallower entry is never used; determine_bound classifies a fail-soft score.
+#[cfg_attr(kani, kani::proof)]
+#[cfg_attr(kani, kani::unwind(10))]
+pub fn c05_window_lemma() {
+    use crate::absgame::*;
+    crate::hcommon::setup_game(1, 0);
+    let mut s = crate::search::Searcher::new();
+    let root = crate::absgame::board::Board::root();
+    let v = sym::i32();               // the node's true value at the required depth
+    let (alpha, beta) = (sym::i32(), sym::i32());
+    sym::assume(alpha < beta && alpha >= crate::search::vh::NEG_INF && beta <= crate::search::vh::INF);
+    let eval = sym::i32(); let b = any_bounds(); let de = sym::u8(); let depth = sym::u8();
+    let mv = any_move_opt();
+    let truthful = match b { Bounds::Exact => eval == v, Bounds::Lower => eval <= v, Bounds::Upper => eval >= v };
+    sym::assume(truthful);
+    crate::search::vh::tt_mut(&mut s).store(g().hash[0], eval, mv, de, b);
+    match crate::search::vh::probe(&s, &root, depth, alpha, beta) {
+        Some((score, m)) => {
+            vassert!(de >= depth, "C05: a cached result from a shallower search was used");
+            vassert!(m == mv, "C05: cache hit returns a different move than was stored");
+            if v > alpha && v < beta { vassert!(score == v, "C05: cache hit inside the window returns a score different from the true value"); }
+            if v <= alpha { vassert!(score <= alpha, "C05: cache hit reports a score above alpha for a node whose value is at most alpha"); }
+            if v >= beta { vassert!(score >= beta, "C05: cache hit reports a score below beta for a node whose value is at least beta"); }
+        }
+        None => {
+            // an exact, deep-enough entry must be used (otherwise caching would be pointless but still sound): not required by the property
+        }
+    }
+    // determine_bound: classification of a fail-soft score against the original window
+    let sc = sym::i32(); let a0 = sym::i32(); let bt = sym::i32();
+    sym::assume(a0 < bt);
+    let got = crate::search::vh::bound_of(&s, sc, a0, bt);
+    let want = if sc <= a0 { Bounds::Upper } else if sc >= bt { Bounds::Lower } else { Bounds::Exact };
+    vassert!(got == want, "C05: determine_bound misclassifies a score against the search window");
+    vcover!(b == Bounds::Lower && de >= depth && eval >= beta, "lower bound above beta cuts");
+    vcover!(b == Bounds::Upper && de >= depth && eval > alpha && eval < beta, "upper bound inside the window does not cut");
+    core::mem::forget(s);
+}
